@@ -11,10 +11,15 @@
 //	(5) container / record-list packs: GetRecords() of the decoded pack returns the inner
 //	    packs / records equal, in order, stamped with the container's identity (containers.go)
 //	(6) sensitivity: flipping one manifest field alone changes the encoding
+//	(7) history (history.go): the same object written twice, re-populated (all fields / some
+//	    fields / single leaves / maps changed in place / SetRecords* called again) and written
+//	    again, and a decoded pack read, changed in one place and written, always yields the bytes
+//	    of a FRESH object holding the same current field values
 //
 // Finding keys: <Type>.<field pattern>:<kind>, kind ∈ not-restored, not-consumed,
-// reencode-differs, decode-panics, not-carried, records-differ, records-not-stamped
-// (<Type>:<kind> where no single field applies). A difference inside a nested pack is keyed
+// reencode-differs, decode-panics, not-carried, records-differ, records-not-stamped,
+// encoding-depends-on-history (<Type>:<kind> where no single field applies;
+// <Type>:reencode-differs/<stage> for (7)). A difference inside a nested pack is keyed
 // by the inner pack's type.
 package main
 
